@@ -15,6 +15,7 @@ package main
 
 import (
 	"bytes"
+	"encoding/json"
 	"errors"
 	"fmt"
 	"hash/fnv"
@@ -32,7 +33,9 @@ import (
 	"verifharness/wire"
 )
 
-func init() { register("c13", checkC13) }
+func init() {
+	register("c13", func(c *lib.Ctx) { xfInChild(c, "c13", checkC13) })
+}
 
 const xfKeyF6 = "readfrom-seq/short-last-chunk-write-error-masked"
 
@@ -435,12 +438,19 @@ func checkC13(c *lib.Ctx) {
 	}
 
 	if c.Replay != "" {
-		var cs xfCase
-		if err := lib.ReadReplay(c.Replay, &cs); err != nil {
+		inputs, err := xfReplayInputs(c.Replay)
+		if err != nil {
 			r.Fail(lib.Failure{Kind: "tie", Key: "replay", What: err.Error()})
 			return
 		}
-		runCase(cs, nil)
+		for _, raw := range inputs {
+			var cs xfCase
+			if err := json.Unmarshal(raw, &cs); err != nil || cs.API == "" {
+				continue
+			}
+			cs.Srv = xfSrvSpec{Kind: "peer"}
+			runCase(cs, nil)
+		}
 		mc.compare(c, "c13")
 		return
 	}
@@ -475,12 +485,12 @@ func checkC13(c *lib.Ctx) {
 	sampled := map[string]bool{}
 	spec := xfSrvSpec{Kind: "peer"}
 
-	xfParallel(len(jobs), runtime.GOMAXPROCS(0), func(ji int) {
+	xfParallel(len(jobs), runtime.GOMAXPROCS(0), func(w, ji int) {
 		job := jobs[ji]
 		cfg := job.Cfg
 		mp := cfg.MP
 		rng := rand.New(rand.NewSource(job.Seed))
-		hold := &xfPeerHold{}
+		hold := &xfPeerHold{slot: w}
 		defer hold.Close()
 		var counts []int
 		switch {
@@ -663,7 +673,7 @@ type xfSeqLine struct {
 	file     string // implementation's "<len>:<hash>" of the served file afterwards ("" = not comparable)
 	maskN    bool   // the count of the last call is schedule-dependent: compare everything but n
 	input    any
-	readat   bool
+	readat   bool // the model answers one token string that must equal `calls` (xfer.readat, xfer.plan)
 }
 
 type xfSeqCompare struct {
@@ -792,7 +802,17 @@ func xfMaskN(calls string) string {
 
 func xfBigLine(line string) bool {
 	f := strings.Fields(line)
-	return len(f) > 1 && strings.HasPrefix(f[1], "32768")
+	if len(f) < 2 || strings.HasPrefix(f[0], "xfer.plan") {
+		return false // (plans are arithmetic, cheap at any size)
+	}
+	mp := 0
+	for _, ch := range f[1] {
+		if ch < '0' || ch > '9' {
+			break
+		}
+		mp = mp*10 + int(ch-'0')
+	}
+	return mp >= 1000
 }
 
 func xfBigBudget(c *lib.Ctx) int {
@@ -836,7 +856,7 @@ func (m *xfSeqCompare) compare(c *lib.Ctx, prefix string) {
 			}
 			keep = append(keep, it)
 		}
-		c.R.Note("%s: %d of %d model lines with mp=32768 evaluated (evenly spaced selection; all %d small-packet lines evaluated)", prefix, bigBudget, nbig, len(m.items)-nbig)
+		c.R.Note("%s: %d of %d model lines with mp >= 1000 evaluated (evenly spaced selection; all %d small-packet lines evaluated)", prefix, bigBudget, nbig, len(m.items)-nbig)
 		m.items = keep
 	}
 	var lines []string
